@@ -19,6 +19,7 @@ HOST_KINDS = ['word', 'word', 'atom', 'unk', 'unkarg', 'unkarg2', 'label', 'inde
               'footnote', 'section', 'itemize', 'enumerate', 'unkenv', 'proof', 'quad', 'accent', 'verb',
               'framebox', 'ltadd', 'texorpdf', 'theorem', 'caption', 'twice_ext', 'par']
 FAULTS = ['inline', 'display', 'verb', 'verb_eot', 'verbatim', 'skip', 'accent', 'ltinput', 'openarg', 'clean']
+EXTRA_FAULTS = ['skip0']
 
 
 def lc(src, off):
@@ -97,6 +98,9 @@ class C08(core.Check):
                     f = rnd.choice(FAULTS[:-2])
                     yield dict(docseed=ds, size=size, lang=lang, pre=pre, fault=f, at=k, fs=rnd.getrandbits(16))
                     i += 1
+            # the unclosed skip comment as the very first thing of the text (offset 0)
+            yield dict(docseed=ds, size=size, lang=lang, pre=pre, fault='skip0', at=0, fs=rnd.getrandbits(16))
+            i += 1
             for _ in range(3):
                 if d.argspans:
                     a = rnd.randrange(len(d.argspans))
@@ -134,6 +138,9 @@ class C08(core.Check):
             open_ = [a for a in d.argspans if a[0] < k <= a[1]]
             foff = min(a[0] for a in open_)
             return src[:k], foff, None
+        if f == 'skip0':
+            ins = '%%% LT-SKIP-BEGIN' + rnd.choice(['', ' x']) + '\n'
+            return ins + src.replace('%%% LT-SKIP-END', '%% LT-SKIP-END'), 0, None
         pts = d.safe_points + [len(src)]
         at = pts[case['at']]
         rest = src[at:]
@@ -230,7 +237,7 @@ class C08(core.Check):
                     obs=dict(src=tex.short(src, 200), fault=f, at=lc(src, foff), stderr=tex.short(err, 100)))
 
     def quotas(self, tier):
-        q = {'fault_' + f: 300 for f in FAULTS}
+        q = {'fault_' + f: 300 for f in FAULTS + EXTRA_FAULTS}
         q['fault_within_last_14_chars'] = 1000
         return q
 
